@@ -104,6 +104,7 @@ type StreamOpts struct {
 	MaxMsgSize  uint32
 	CacheSize   uint16
 	HSTimeout   time.Duration
+	EnableCSM   bool
 }
 
 func NewTCP(o StreamOpts) *TCP {
@@ -115,7 +116,7 @@ func NewTCP(o StreamOpts) *TCP {
 		cfg.PeriodicRunner = func(func(time.Time) bool) {}
 		cfg.MessagePool = pool.New(0, 0)
 		cfg.GetToken = func() (message.Token, error) { tok++; return message.Token{0xdd, tok}, nil }
-		cfg.DisableTCPSignalMessageCSM = true
+		cfg.DisableTCPSignalMessageCSM = !o.EnableCSM
 		cfg.BlockwiseEnable = false
 		if o.MaxMsgSize != 0 {
 			cfg.MaxMessageSize = o.MaxMsgSize
